@@ -235,7 +235,7 @@ CHECKS["C11"] = {
         {"name": "guard-public-generic", "variant": "generic", "pkg": "sm4", "run": "TestVX_C11", "public_files": SM4P + ["sm4/C10_pub_test.go", "sm4/C11_pub_test.go"],
          "shards": 16, "env": {"VX_PART": "guard-public-generic"}},
         {"name": "stack-sweep", "pkg": "sm4", "run": "TestVX_StackSweep", "public_files": SM4P + ["sm4/C10_pub_test.go", "sm4/C11_pub_test.go", "sm4/Stack_pub_test.go"],
-         "shards": 12, "env": {"VX_PART": "stack-sweep", "VX_STACK_PROP": "C11", "GODEBUG": "efence=1"}},
+         "shards": 12, "env": {"VX_PART": "stack-sweep", "VX_STACK_PROP": "C11", "GODEBUG": "efence=1,adaptivestackstart=0"}},
     ],
     "deadline": {"quick": 200, "thorough": 2400},
 }
@@ -274,7 +274,7 @@ CHECKS["C17"] = {
         {"name": "race-sm4", "variant": "sched", "race": True, "pkg": "sm4", "run": "TestVX_C17_SM4_Race", "public_files": C17F, "gomaxprocs": 16},
         {"name": "race-sm2", "variant": "sched", "race": True, "pkg": "sm2", "run": "TestVX_C17_SM2_Race", "public_files": SM2P + ["sm2/C17_pub_test.go"], "gomaxprocs": 16},
         {"name": "stack-sweep", "pkg": "sm4", "run": "TestVX_StackSweep", "public_files": SM4P + ["sm4/Stack_pub_test.go"],
-         "shards": 12, "env": {"VX_PART": "stack-sweep", "VX_STACK_PROP": "C17", "GODEBUG": "efence=1"}},
+         "shards": 12, "env": {"VX_PART": "stack-sweep", "VX_STACK_PROP": "C17", "GODEBUG": "efence=1,adaptivestackstart=0"}},
         {"name": "cold-concurrent", "race": True, "pkg": "sm2", "run": "TestVX_SM2Cold", "public_files": SM2P + ["sm2/Cold_pub_test.go"], "gomaxprocs": 16, "shards": 8,
          "env": {"VX_PART": "cold-concurrent"}},
     ],
@@ -300,7 +300,7 @@ CHECKS["C08"] = {
 W32 = {
     "C01": ["sign-verify"], "C02": ["sign-exact"], "C03": ["verify-exact"], "C04": ["sm3-history", "sm3-single-huge"], "C05": ["block-public"],
     "C06": ["seal"], "C07": ["open"], "C10": ["buffers-gcm", "buffers-sum", "inputs-sm2"], "C12": ["keys"], "C13": ["za-wrappers"],
-    "C14": ["mul-public"], "C15": ["point-encoding", "point-arith-public"], "C16": ["field", "chain", "multiselect"],
+    "C14": ["mul-public", "mul-schemes"], "C15": ["point-encoding", "point-arith-public", "point-arith"], "C16": ["field", "chain", "multiselect"],
     "C19": ["failing-rand"], "C20": ["cmp", "naf"],
 }
 for _pid, _names in W32.items():
@@ -313,8 +313,10 @@ for _pid, _names in W32.items():
             _q["variant"] = "w32"
             _q["goarch"] = "386"
             _q["tier_cap"] = "quick"
-            _q.pop("files", None)
-            _q.pop("kind", None)
+            if not _p.get("files") or _p.get("public_files"):
+                # parts with public drivers drop their in-package extras; purely in-package parts (pure Go packages) keep them
+                _q.pop("files", None)
+                _q.pop("kind", None)
             _q["env"] = dict(_p.get("env", {}), VX_W32="1")
             _new.append(_q)
     _c["parts"] = _c["parts"] + _new
